@@ -308,7 +308,7 @@ static int main_(int argc, char ** argv)
   const std::string out  = arg(argc, argv, "--out", "/dev/stdout");
   const long nt          = std::atol(arg(argc, argv, "--n", "10").c_str());       // tangents per host geometry
   const long noff        = std::atol(arg(argc, argv, "--offsets", "6").c_str());  // number of block offsets
-  const long hmax        = std::atol(arg(argc, argv, "--hmax", "1000000").c_str());  // cap on Hessian calls
+  const long hmax        = std::atol(arg(argc, argv, "--hmax", "1000000").c_str());  // cap on calls per Hessian op
   const uint64_t seed    = std::strtoull(arg(argc, argv, "--seed", "1").c_str(), nullptr, 10);
   const std::string prog = arg(argc, argv, "--prog", "");
   c.rng                  = Rng(seed * 1000003ull + static_cast<uint64_t>(VH_GROUP) * 7919ull + (sizeof(S) == 4 ? 13 : 0));
@@ -359,10 +359,10 @@ static int main_(int argc, char ** argv)
   // block offsets: 0..3, then Dof, 2*Dof+1, ...
   std::vector<Idx> offs;
   for (long k = 0; k < noff; ++k) offs.push_back(k < 4 ? k : (k == 4 ? DOF : (k - 3) * DOF + (k - 4)));
-  long hcalls = 0;
-  long ctr    = 0;
+  long ctr = 0;
   for (int op = 0; op < 5; ++op) {
     const int kind = op_kind(op);
+    long hcalls    = 0;  // cap per Hessian operation
     const std::size_t no = (kind == K_AD) ? 1 : offs.size();
     for (std::size_t oi = 0; oi < no; ++oi) {
       // big Hessian hosts only at the small offsets
